@@ -7,7 +7,9 @@ RULE = ("Generated operation histories (lists of ops interpreted against the imp
         "oracle after every step). union-find: non-trivial = history contains a union joining two blocks that both "
         "have >=2 elements followed by a query; queue: non-trivial = two pending items tie on priority when one of them is "
         "popped. distinct = distinct realised histories.")
-ASSUMPTIONS = ["elements are hashable immutable values (ints, tuples, strings)", "priorities are floats without NaN"]
+ASSUMPTIONS = ["elements are hashable immutable values (ints of any size, tuples, strings), also passed as temporaries equal to the stored ones",
+               "priorities are floats without NaN or Python ints of any size (compared exactly, as Python does)",
+               "a union-find that went through copy.copy / copy.deepcopy / pickle is held to the same oracles as the original"]
 
 
 # --------------------------------------------------------------------------------- union-find
@@ -17,7 +19,19 @@ def dec(e):
     return e
 
 
-INT_POOL = st.integers(0, 9)
+def rebuild(e):
+    """an equal but NEW object (a temporary that nobody else keeps alive): callers often build their keys on the fly, e.g.
+    uf.find((i, i + 1)) in a loop, and CPython then reuses the address of the previous temporary"""
+    if isinstance(e, tuple):
+        return tuple([rebuild(x) for x in e])
+    if isinstance(e, str):
+        return "".join(list(e)) if len(e) > 1 else e
+    if isinstance(e, int) and not isinstance(e, bool):
+        return int(str(e))
+    return e
+
+
+INT_POOL = st.one_of(st.integers(0, 9), st.integers(0, 9), st.sampled_from([257, 1000, 2 ** 40, -1, 10 ** 20]))
 STR_POOL = st.sampled_from(["a", "b", "c", "dd", "e", "", "xyz", "0"])
 TUP_POOL = st.sampled_from([["t", 0, 1], ["t", 1, 0], ["t", 2, 3], ["t", 0], ["t"], ["t", 1, 2, 3], ["t", "a", 1], ["t", 4, 5],
                             ["t", ["t", 0, 1], 2]])
@@ -26,7 +40,8 @@ TUP_POOL = st.sampled_from([["t", 0, 1], ["t", 1, 0], ["t", 2, 3], ["t", 0], ["t
 def uf_ops(pool):
     one = st.tuples(st.sampled_from(["add", "find", "component", "in"]), pool).map(list)
     two = st.tuples(st.sampled_from(["union", "union", "union", "connected"]), pool, pool).map(list)
-    zero = st.sampled_from([["components"], ["mapping"], ["roots"], ["len"], ["counts"]])
+    zero = st.sampled_from([["components"], ["mapping"], ["roots"], ["len"], ["counts"], ["fresh"], ["fresh"],
+                            ["clone", "copy"], ["clone", "deepcopy"], ["clone", "pickle"]])
     idx = st.tuples(st.just("index"), st.integers(-2, 12)).map(list)
     return st.lists(st.one_of(one, two, two, two, zero, zero, idx), min_size=1, max_size=60)
 
@@ -101,6 +116,13 @@ class PartitionModel:
     def snapshot(self):
         return sorted((sorted(map(repr, b)) for b in self.blocks))
 
+    @staticmethod
+    def clone_of(m):
+        c = PartitionModel()
+        c.order = list(m.order)
+        c.blocks = [set(b) for b in m.blocks]
+        return c
+
 
 def observe_partition(uf, ctx, model, where, order=0):
     """Full read-out of the implementation compared with the model; must not change anything. The parts are issued in a
@@ -146,7 +168,22 @@ def observe_partition(uf, ctx, model, where, order=0):
             if ok:
                 ctx.check(isinstance(c, set) and set(c) == model.block(e) and len(c) == len(model.block(e)), "uf:component", f"{where}: component({e!r}) = {c!r}, model {model.block(e)!r}")
 
-    parts = [part_components, part_connected, part_roots, part_mapping, part_component]
+    def part_fresh():
+        # every element looked up through a temporary equal key, one after the other (the temporaries die in between)
+        for e in model.order:
+            ok, r = ctx.call("uf:find", lambda: uf.find(rebuild(e)))
+            if ok:
+                ok2, got = ctx.call("uf:getitem", uf.__getitem__, r)
+                if ok2:
+                    ctx.check(model.has(got) and model.block(got) is model.block(e), "uf:find-fresh-key",
+                              f"{where}: find(<new object equal to {e!r}>) -> index {r} = element {got!r}, not in the block of {e!r}")
+        for i in range(len(model.order) - 1):
+            x, y = model.order[i], model.order[i + 1]
+            ok, c = ctx.call("uf:connected", lambda: uf.connected(rebuild(x), rebuild(y)))
+            if ok:
+                ctx.check(bool(c) == (model.block(x) is model.block(y)), "uf:connected-fresh-key", f"{where}: connected(<new {x!r}>,<new {y!r}>)={c}")
+
+    parts = [part_components, part_connected, part_roots, part_mapping, part_component, part_fresh]
     k = order % len(parts)
     for part in parts[k:] + parts[:k]:
         part()
@@ -161,6 +198,7 @@ def fn_uf(case, ctx):
         model.add(e)
     ctx.label("kind=" + case["kind"], "readout=" + case.get("readout", "every"))
     big_union = False
+    frozen = []
     for step, op in enumerate(case["ops"]):
         name = op[0]
         args = [dec(a) for a in op[1:]]
@@ -177,7 +215,10 @@ def fn_uf(case, ctx):
                 ctx.label("self-union")
             if not model.has(x) or not model.has(y):
                 ctx.label("union-absent")
-            ctx.call("uf:union", uf.union, x, y)
+            if step % 2:
+                ctx.call("uf:union", lambda: uf.union(rebuild(x), rebuild(y)))      # keys built on the fly
+            else:
+                ctx.call("uf:union", uf.union, x, y)
             r = model.union(x, y)
             if r and min(r) >= 2:
                 big_union = True
@@ -221,6 +262,20 @@ def fn_uf(case, ctx):
                     pass
         elif name == "in":
             ctx.check((args[0] in uf) == model.has(args[0]), "uf:contains", where)
+        elif name == "fresh":
+            ctx.label("fresh-temporary-keys")
+        elif name == "clone":
+            # the structure goes through copy.copy / copy.deepcopy / a pickle round trip and the history continues on the clone; the
+            # original (deep clones only) must still describe the partition it had at that moment
+            import copy, pickle
+            how = args[0]
+            ok, cl = ctx.call("uf:clone:" + how, {"copy": copy.copy, "deepcopy": copy.deepcopy,
+                                                  "pickle": lambda u: pickle.loads(pickle.dumps(u))}[how], uf)
+            if ok:
+                ctx.label("clone=" + how)
+                if how != "copy":
+                    frozen.append((uf, PartitionModel.clone_of(model), f"original of the {how} made at step {step}"))
+                uf = cl
         elif name == "components":
             ok, comps = ctx.call("uf:components", uf.components)
             if ok:
@@ -261,13 +316,16 @@ def fn_uf(case, ctx):
             ctx.check(model.snapshot() == before, "harness", "model changed by a query")
         # queries never change the partition; the whole read-out agrees with the model (after every step, or - "sparse" -
         # only after query operations, so that union chains are not interleaved with path-compressing finds)
-        if case.get("readout", "every") == "every" or name not in ("add", "union"):
+        if case.get("readout", "every") == "every" or name not in ("add", "union", "clone"):
             observe_partition(uf, ctx, model, where, case.get("order", 0) + step)
     observe_partition(uf, ctx, model, "end of history", case.get("order", 0))
+    for old, old_model, what in frozen:
+        observe_partition(old, ctx, old_model, what + " (read at the end of the history)", case.get("order", 0))
 
 
 # --------------------------------------------------------------------------------- priority queue
-PRIOS = st.one_of(st.integers(-3, 3).map(float), st.sampled_from([float("inf"), float("-inf"), 0.0, -0.0, 1e-300, 1e300, 0.5]),
+PRIOS = st.one_of(st.integers(-3, 3).map(float), st.integers(-3, 3),
+                  st.sampled_from([2 ** 53, 2 ** 53 + 1, 2 ** 53 + 2, -2 ** 53 - 1, -2 ** 53, 2 ** 63, 2 ** 64 + 1, 10 ** 30, 10 ** 30 + 1]), st.sampled_from([float("inf"), float("-inf"), 0.0, -0.0, 1e-300, 1e300, 0.5]),
                   st.floats(allow_nan=False, allow_infinity=True, width=64))
 PAYLOAD = st.one_of(st.integers(-2, 2), st.sampled_from(["a", "b", None]), st.lists(st.integers(0, 2), max_size=2))
 
